@@ -1191,10 +1191,12 @@ fn coherent_rsp(v: &Response) -> V {
     }
 }
 
+/// open finding D5b, exactly: a write-multiple-coils request that carries fewer data bytes than
+/// ceil(quantity / 8) (the decoder keeps `bytes[6..]`, so a larger byte count with the data present is harmless)
 fn d5b_class(pdu: &[u8]) -> &'static str {
     if pdu.len() >= 6 && pdu[0] == 0x0F {
         let q = pdu[3] as usize * 256 + pdu[4] as usize;
-        if pdu[5] as usize != (q + 7) / 8 {
+        if pdu.len() - 6 < (q + 7) / 8 {
             return "D5b";
         }
     }
@@ -1214,7 +1216,7 @@ fn c13(kind: &str, b: &[u8]) -> String {
             None => fail("-", "decoder panicked".into()),
         },
         "rtureq" => match catch(|| rtu::server::decode_request(b)) {
-            Some(Ok(Some(a))) => verdict(if b.len() > 1 { d5b_class(&b[1..]) } else { "-" }, coherent_req(&a.pdu.0)),
+            Some(Ok(Some(a))) => verdict(if b.len() > 3 { d5b_class(&b[1..b.len() - 2]) } else { "-" }, coherent_req(&a.pdu.0)),
             None => fail("-", "decoder panicked".into()),
             _ => "NA rejected".into(),
         },
